@@ -450,6 +450,10 @@ def fits_w(w, size, atomic=()):
         n = len(w.contents)
         if n == 0 or len(widths) != n or any(x < 1 for x in widths) or sum(widths) + w.dividechars * (n - 1) > maxcol:
             return False
+        static = [o[1] if o[0] == urwid.WHSettings.GIVEN else (w.min_width if o[0] == urwid.WHSettings.WEIGHT else None)
+                  for _c, o in w.contents]
+        if None not in static and (any(x < 0 for x in static) or sum(static) + w.dividechars * (n - 1) > maxcol):
+            return False            # the static needs (given widths, min_width, dividers) must fit
         if any(h < 1 for h in heights) or (len(size) == 2 and any(h > size[1] for h in heights)):
             return False
         return all(fits_w(c, a, atomic) for (c, _), a in zip(w.contents, args))
@@ -1247,9 +1251,11 @@ class C09(core.Check):
                   "to exactly that child / leaf with coordinates relative to its top-left corner and the size render "
                   "gave it; (3) move_cursor_iff_child: move_cursor_to_coords succeeds exactly when the child drawn at "
                   "the cell accepts the translated cell; plus three lemmas about the translated padding / filler "
-                  "arithmetic (margins never negative, top + height + bottom exact).  PARTIAL: cursor_on_requested_row "
-                  "is proved for moves that leave the focus of every Columns on the way unchanged (Pile focus may "
-                  "change); the case of a Columns whose focus moves is decided by correspondence + oracle.  The two "
+                  "arithmetic (margins never negative, top + height + bottom exact); (4) cursor_on_requested_row: after a "
+                  "successful move that went down to a leaf the tree still fits and the reported cursor is on the "
+                  "requested row, including moves that change the focus of a Pile or a Columns (needs "
+                  "column_widths_focus_independent: when the static needs fit, Columns.column_widths does not depend "
+                  "on focus_position).  The two "
                   "Overlay statements refuted in the first round hold since the fix: commits ebf9945 / f18097d (former "
                   "witnesses kept as regression Examples and corpus cases).  Correspondence/oracle only: real Edit / "
                   "SelectableIcon / Button / CheckBox leaves, GridFlow, ListBox (no model), get_pref_col, 'pack' "
